@@ -76,7 +76,7 @@ NOT_CAUGHT = {
     "C19-10": "not a violation of C19 as stated: the change sits in the transaction buffer that the embedded transaction and the service's BatchWrite/TxPut share, so service and embedded results stay equal (both wrong; the check counts 'embedded differs from the model' as inconclusive, the embedded semantics being other properties' business). The same slip was seeded for C03 and C01 (C03-3, C01-7) and is caught there; C01 and C03 also catch this patch",
     "C19-12": "not a violation of C19 as stated, like C19-10: the change sits in the transaction buffer (Buffer.Get) that the embedded transaction and the service's TxGet share, so the service keeps behaving exactly like the embedded API (both read the transaction's own empty-valued put as absent). It is the defect D11 again; C01 catches this patch (regression replay d11-tx-reads-own-empty-put.json and the generated programs, `ryw@tx`), and C03/C04 read a transaction's own writes as well",
     "C14-10": "needs a replica that is registered but has not acknowledged anything yet (the few milliseconds between its join and the ack of its first 100-entry catch-up message) at the moment ANOTHER replica's ack makes the retention pass delete a rotated log file, and a backlog of more than 100 entries so that the joiner still has to read the deleted part from disk afterwards. C14 generates all the ingredients (two replicas, hot joins during a 2000-4000 write burst, backlogs of 101-400 entries, rotated logs), but the quick tier runs 32 cases and none placed a deleting ack inside that window. The thorough tier run against the patch (320 cases, 242 non-trivial, 377 s) did not hit it either. The extension this needs is a 'slow joiner' class (a delay in the joining replica's storage wrapper while the other replica keeps acknowledging); it was not added in the time left because a new timing-dependent class could no longer be soaked on the unchanged tree at several seeds, which every other class of C14 was",
-    "C07-13": "needs a transaction commit whose log write FAILS, followed by another begin: C07's programs contain no injected I/O faults (its subject is races, crashes and hangs under concurrency on a healthy disk). The lock leaked by a failed commit is C17's business (\"no sequence of begin/commit/rollback can leave others blocked forever\", commits with a failing backend are generated there): C17's quick tier catches this patch (`blocked_forever:holder=closed_but_kept_lock:commit_failed`, 3 violations)",
+    "C07-13": "needs a transaction commit whose log write FAILS, followed by another begin: C07's programs contain no injected I/O faults (its subject is races, crashes and hangs under concurrency on a healthy disk). The lock leaked by a failed commit is C17's business (\"no sequence of begin/commit/rollback can leave others blocked forever\", commits with a failing backend are generated there): C17's quick tier catches this patch (`blocked_forever:holder=closed_but_kept_lock:commit_failed`, 3 violations); C03's fault cases run into the leaked lock too, but there the harness's own next begin blocks, which that check reports as inconclusive (time-out, exit 2), not as a violation",
     "C13-7": "needs an atomic multi-entry batch (transaction commit / batch write) pushed by the primary; primary transactions are excluded by construction while the open finding D18 stands (replication of transactions is broken on the unchanged tree already)",
     "C15-8": "needs a multi-entry batch at the tail of a > 100 entry backlog, i.e. primary transactions: excluded by construction while D18 is open (flag primary_tx, also_excludes_in C15); no way to reach the unbounded loop without entries that share a sequence number",
 }
